@@ -12,6 +12,7 @@ import (
 	"strconv"
 	"strings"
 	"sync"
+	"time"
 
 	"github.com/lrstanley/girc"
 )
@@ -1136,6 +1137,26 @@ func conformantSig(evs []Ev, obs string) string {
 	return "ch" + b(nch) + "/us" + b(nus/2) + "/" + strings.Join(ks, ",")
 }
 
+// runHistoryGuarded is RunHistory under a watchdog: a handler that panics while it holds the
+// state lock leaves every later handler blocked, and RunHandlers never returns.
+func runHistoryGuarded(nick, user string, evs []Ev) (obs, oracle string, ss *StateSession) {
+	type res struct {
+		obs, oracle string
+		ss          *StateSession
+	}
+	ch := make(chan res, 1)
+	go func() {
+		o, or, s := RunHistory(nick, user, evs)
+		ch <- res{o, or, s}
+	}()
+	select {
+	case r := <-ch:
+		return r.obs, r.oracle, r.ss
+	case <-time.After(45 * time.Second):
+		return "WEDGED", "wedge: the client did not finish processing the history within 45s (a handler blocked, e.g. on a state lock left held)", nil
+	}
+}
+
 // runBeyond: histories a correct server may also send but which the assumptions listed in
 // conf/C04.json exclude from `conformant`; the oracle compares the API with the literal
 // reading of the history (Spec/NetRef.v told_run) regardless of conformance.
@@ -1144,7 +1165,10 @@ func runBeyond(c Case) Result {
 	if !ok {
 		return Result{Obs: "?bad-args", Sig: ""}
 	}
-	obs, oracle, ss := RunHistory(nick, user, evs)
+	obs, oracle, ss := runHistoryGuarded(nick, user, evs)
+	if ss == nil {
+		return Result{Obs: obs, Oracle: oracle, Sig: "beyond"}
+	}
 	defer ss.Stop()
 	if oracle != "" || obs == "PANIC" || obs == "WEDGED" || obs == "NOPONG" {
 		return Result{Obs: obs, Oracle: oracle, Sig: "beyond"}
@@ -1167,7 +1191,10 @@ func runConformant(c Case) Result {
 	if !ok {
 		return Result{Obs: "?bad-args", Sig: ""}
 	}
-	obs, oracle, ss := RunHistory(nick, user, evs)
+	obs, oracle, ss := runHistoryGuarded(nick, user, evs)
+	if ss == nil {
+		return Result{Obs: obs, Oracle: oracle, Sig: "wedged"}
+	}
 	defer ss.Stop()
 	sig := conformantSig(evs, obs)
 	if oracle != "" || obs == "PANIC" || obs == "WEDGED" || obs == "NOPONG" {
